@@ -375,6 +375,33 @@ pub fn extra_universe() -> Universe {
     s.push(Ty::adt(audit, vec![a(Ty::vec(p(U64)))]));
     s.push(Ty::adt(audit, vec![a(Ty::bslice(p(U64)))]));
     s.push(Ty::vec(Ty::adt(audit, vec![a(Ty::vec(p(U64)))])));
+    // very long type names (the header carries the name; nothing may depend on its length)
+    let mut deep = Ty::vec(p(U16));
+    for _ in 0..9 {
+        deep = Ty::opt(Ty::vec(deep));
+    }
+    s.push(deep);
+    s.push(Ty::vec(Ty::tup(Ty::range(RangeKind::RangeToInclusive, p(I128)), 12)));
+    let mut nest = Ty::adt(g1, vec![a(Ty::vec(p(U8)))]);
+    for _ in 0..8 {
+        nest = Ty::adt(pre, vec![a(Ty::String), a(nest)]);
+    }
+    s.push(nest);
+    // sequences of deep-copy items that take no byte in the stream
+    let du = add(def("DU0", DeepAttr, &[], vec![], Body::Struct(Fields::Unit)));
+    let dph = add(def("DPh", DeepAttr, &[], vec![tparam("P", &[])], Body::Struct(named(&[("m", Ty::phantom(Ty::Param(0)))]))));
+    for t in [Ty::adt(du, vec![]), Ty::adt(dph, vec![a(p(U64))]), Ty::arr(Ty::String, 0), Ty::arr(Ty::adt(du, vec![]), 2)] {
+        s.push(Ty::vec(t.clone()));
+        s.push(Ty::bslice(t.clone()));
+        s.push(Ty::adt(tail, vec![a(Ty::vec(t.clone()))]));
+        s.push(Ty::adt(g1, vec![a(Ty::vec(t))]));
+    }
+    // big payloads (values of more than a mebibyte are added by `sweep_vals` for exactly these subjects)
+    s.push(Ty::adt(g1, vec![a(Ty::vec(p(U64)))]));
+    s.push(Ty::adt(tail, vec![a(Ty::String)]));
+    s.push(Ty::adt(tail, vec![a(Ty::bslice(p(U32)))]));
+    let mut seen = std::collections::BTreeSet::new();
+    s.retain(|t| seen.insert(t.clone()));
     u.subjects = s;
     u
 }
